@@ -150,3 +150,38 @@ contract(SC + 'flatten_mapping', props=['C14'], max_paths=6, params={'node': 'ob
                 2: _FM_INV + ["fresh(merge) and typeis(merge, 'list')", "index >= 0",
                               "forall(j, 0, len(merge), typeis(merge[j], 'tuple') and len(merge[j]) == 2)"]},
     modifies=['*.value', '*.tag', '$seq'], raises=[CERR])
+
+
+# ---- C14: generic collection construction (BaseConstructor)
+define('wf_items', ['n'], "(exact(n, 'yaml.nodes.MappingNode') ==> (typeis(n.value, 'list') and forall(i, 0, len(n.value), typeis(n.value[i], 'tuple') and len(as_(n.value[i], 'tuple')) == 2 and is_node(as_(n.value[i], 'tuple')[0]) and is_node(as_(n.value[i], 'tuple')[1])))) and "
+       "(exact(n, 'yaml.nodes.SequenceNode') ==> (typeis(n.value, 'list') and forall(i, 0, len(n.value), is_node(n.value[i]))))")
+_CM_REQ = ["is_node(node)", "inv_gens(self)", "inv_ctor(self)", "wf_items(node)"]
+_CM_INV = ["inv_gens(self)", "inv_ctor(self)", "co_grow(self)", "ro_same(self)", "self.deep_construct == old(self.deep_construct)"]
+contract(CO + 'construct_mapping', props=['C14'],
+    params={'deep': 'bool'},
+    requires=_CM_REQ, result='dict',
+    ensures=["fresh(result)", "co_grow(self)", "ro_same(self)", "self.deep_construct == old(self.deep_construct)", "inv_gens(self)",
+             "exact(node, 'yaml.nodes.MappingNode')"],
+    labels={0: 'a-new-dict', 1: 'cache-only-grows', 2: 'in-progress-set-restored', 3: 'deep-flag-restored', 4: 'inv_gens', 5: 'only-mapping-nodes-are-accepted'},
+    invariants={0: _CM_INV + ["typeis(mapping, 'dict') and fresh(mapping)", "exact(node, 'yaml.nodes.MappingNode')"]},
+    modifies=PROTO_MOD, raises=[CERR], raises_any=True)
+
+contract(CO + 'construct_pairs', props=['C14'],
+    params={'deep': 'bool'},
+    requires=_CM_REQ, result='list',
+    ensures=["fresh(result)", "co_grow(self)", "ro_same(self)", "self.deep_construct == old(self.deep_construct)", "inv_gens(self)",
+             "exact(node, 'yaml.nodes.MappingNode')", "len(result) == old(len(node.value))"],
+    labels={0: 'a-new-list', 1: 'cache-only-grows', 2: 'in-progress-set-restored', 3: 'deep-flag-restored', 4: 'inv_gens', 5: 'only-mapping-nodes-are-accepted',
+            6: 'one-pair-per-entry'},
+    invariants={0: _CM_INV + ["typeis(pairs, 'list') and fresh(pairs)", "exact(node, 'yaml.nodes.MappingNode')", "len(pairs) == loop_i", "len(loop_seq) == old(len(node.value))"]},
+    modifies=PROTO_MOD, raises=[CERR], raises_any=True)
+
+contract(CO + 'construct_sequence', props=['C14'],
+    params={'deep': 'bool'},
+    requires=_CM_REQ, result='list',
+    ensures=["fresh(result)", "co_grow(self)", "ro_same(self)", "self.deep_construct == old(self.deep_construct)", "inv_gens(self)",
+             "exact(node, 'yaml.nodes.SequenceNode')", "len(result) == old(len(node.value))"],
+    labels={0: 'a-new-list', 1: 'cache-only-grows', 2: 'in-progress-set-restored', 3: 'deep-flag-restored', 4: 'inv_gens', 5: 'only-sequence-nodes-are-accepted',
+            6: 'one-item-per-entry'},
+    invariants={0: _CM_INV + ["typeis(comp, 'list') and fresh(comp)", "exact(node, 'yaml.nodes.SequenceNode')", "len(comp) == loop_i", "len(loop_seq) == old(len(node.value))"]},
+    modifies=PROTO_MOD, raises=[CERR], raises_any=True)
